@@ -19,7 +19,7 @@ META = {
     "bounds": {"quick": "<= 3 batches of <= 2 rows (total <= 4), every cut point; sum/count/mean, groupby sum/count/mean (column "
                         "and streaming grouper), window(n in {1,2}) and window(value=2) with sum/count/mean/var, windowed "
                         "groupby, rolling(2).sum/mean, rolling(2 ticks).sum, expanding sum/mean, ewm(com=1).mean",
-               "thorough": "<= 3 batches of <= 3 rows (total <= 5), window n up to 3"},
+               "thorough": "<= 3 batches of <= 2 rows (total <= 4) plus three patterns with a 3-row batch, window n up to 3"},
     "outside": ["states that are serialised and restored in another process", "IEEE rounding"],
     "stubs": DC.STUBS,
     "assumptions": [],
@@ -157,7 +157,7 @@ def specs(tier):
 def obligations(tier):
     q = tier == "quick"
     B = 400 if q else 2000
-    pats = [p for p in (length_patterns(3, 2, 4) if q else length_patterns(3, 3, 5))]
+    pats = [p for p in (length_patterns(3, 2, 4) if q else length_patterns(3, 2, 4) + [(1, 1, 3), (3, 1, 1), (2, 3, 0)])]
     obls = []
     for name, spec in specs(tier):
         for lens in pats:
